@@ -62,6 +62,8 @@ class LogGen:
     def __init__(self, rng, nids=6, monotone=True):
         self.rng = rng
         self.ids = ['T%05d' % k for k in range(nids)]
+        if rng.random() < 0.15:
+            self.ids[rng.randrange(nids)] = ''      # hand-written logs can carry the empty id; replay does not reject it
         self.clock = EPOCH0
         self.monotone = monotone
 
